@@ -278,6 +278,11 @@ func c06(c *Ctx) {
 		scs = append(scs, LifeScenario{Cause: "close", Closers: 1, Flood: true, Track: tr, ConnectAgain: "early"})
 		tags = append(tags, "connect-again")
 	}
+	// the context handed to ConnectContext is already done, or ends while a context-unaware dialer is at work
+	for _, when := range []string{"before", "during"} {
+		scs = append(scs, LifeScenario{Cause: "cancel", Flood: true, CancelEarly: when, GoMaxProcs: []int{1, 4}[c.R.N(2)]})
+		tags = append(tags, "context-done-"+when+"-the-dial")
+	}
 	// background handlers are not on the event loop: one that is still at work must not hold up the teardown, and one
 	// may itself call Close (a "!quit" command handled in the background)
 	for _, cause := range []string{"close", "eof", "cancel"} {
@@ -378,6 +383,11 @@ func c07(c *Ctx) {
 		}
 		scs = append(scs, sc)
 		tags = append(tags, tag)
+	}
+	// the context handed to ConnectContext is already done, or ends while a context-unaware dialer is at work
+	for _, when := range []string{"before", "during"} {
+		scs = append(scs, LifeScenario{Cause: "cancel", Flood: true, CancelEarly: when, GoMaxProcs: []int{1, 4}[c.R.N(2)]})
+		tags = append(tags, "context-done-"+when+"-the-dial")
 	}
 	// background handlers are not on the event loop: one that is still at work must not hold up the teardown, and one
 	// may itself call Close (a "!quit" command handled in the background)
